@@ -74,7 +74,7 @@ TEXTS = {
   rule="Non-trivial = MTU changed while >=1 segment was queued or in flight, or within 2 of a boundary, or raw MTU > 1500."),
  "C11": dict(
   level_text=("1-8 clients (some sharing an IP) on one listener, each with its own fault script and an (address, conv)-keyed payload stream; reconnects from the same address with a new conv; late Accept; injected foreign datagrams: replays of genuine datagrams from a never-seen address, random bytes from strangers and (with a cipher) from known addresses, "
-              "forged conv from the right address with sn != 0 (digest + table must not change), genuine server datagrams sent to a dialled client from a third address (digest must not change). Oracle: Accept returns each incarnation exactly once with the right addr/conv, every accepted session reads exactly its own peer's stream and completes."),
+              "forged conv from the right address with sn != 0 (digest + table must not change), genuine server datagrams sent to a dialled client from a third address (digest must not change). Oracle: Accept returns each incarnation exactly once with the right addr/conv, every accepted session reads exactly its own peer's stream and completes. TestC11Backlog: 120-150 new peers against the 128-deep accept backlog, accepted late: table and backlog never exceed 128, every peer is accepted exactly once as room appears, each session holds its own peer's bytes."),
   level_note=E2 + ". Stale datagrams of the old conversation are let die out (500 ms) before a reconnect so that exactly-once can be asserted; the two documented restart histories (stale sn=0, server-side Close) are not generated.",
   rule="Non-trivial = >=3 concurrent streams interleaving at the listener AND >=1 injected foreign datagram that passed the integrity gate."),
  "C12": dict(
